@@ -26,6 +26,7 @@ def run_case(case):
     ini.setdefault('sec', False)
     tgt.setdefault('sec', False)
     nad = ini.pop('nad', None)
+    did = ini.pop('did', None)
     s, ctx, net = stack.run_pair(ini, tgt, horizon=20.0)
     seen = dict(ini=[], tgt=[])
 
@@ -119,10 +120,12 @@ def run_case(case):
 
     ctx['after_ini'], ctx['after_tgt'] = after_ini, after_tgt
     stack.NAD[0] = nad
+    stack.DID[0] = did
     try:
         s.run()
     finally:
         stack.NAD[0] = None
+        stack.DID[0] = None
     bad, outcome = judge(case, s, ctx, net, seen)
     for miu, d, size, name in agg['bad'][:1]:
         bad.append(('traffic|llc-frame-exceeds-miu|%s' % name,
@@ -251,8 +254,9 @@ def judge(case, s, ctx, net, seen):
     brs = clamp(ini.get('brs', 2), 0, 2)
     mi, mt = A.mac, B.mac
     if ini.get('nad') is None:
-        exp.append(('ini.dep.miu', mi.miu, LR[lrt] - 3))
-        exp.append(('tgt.dep.miu', mt.miu, LR[lri] - 3))
+        hdr = 3 + (ini.get('did') is not None)      # the DID octet counts
+        exp.append(('ini.dep.miu', mi.miu, LR[lrt] - hdr))
+        exp.append(('tgt.dep.miu', mt.miu, LR[lri] - hdr))
     # (with a node address in use the frame size oracle below decides)
     exp.append(('ini.dep.rwt', round(mi.rwt, 9),
                 round(4096 / 13.56E6 * 2 ** rwt, 9)))
@@ -390,6 +394,13 @@ def cases(tier):
     for brs, lri, lrt in itertools.product((0, 2), range(4), range(4)):
         out.append(dict(ini=dict(nad=1, brs=brs, lri=lri, miu=2175, agf=True),
                         tgt=dict(lrt=lrt, rwt=8, miu=2175, agf=True)))
+    # the Initiator assigns a device identifier (DID): one octet more in the
+    # frames of both sides, the payload limits shrink by one
+    for did in (1, 14):
+        for brs, lri, lrt in itertools.product((0, 2), range(4), range(4)):
+            out.append(dict(ini=dict(did=did, brs=brs, lri=lri, miu=2175,
+                                     agf=True),
+                            tgt=dict(lrt=lrt, rwt=8, miu=2175, agf=True)))
     # data responses lost for good while attention is still answered: the
     # Initiator gives up within the link timeout the Target announced
     for rwt in (4, 8, 12):
